@@ -57,12 +57,15 @@ func (inv *Invoice) scenarioSummary() *tax.ScenarioSummary {
 func (inv *Invoice) removePreviousScenarioNotes(ss *tax.ScenarioSet) {
 	for _, sn := range ss.Notes() {
 		n := org.NoteFromScenario(sn)
-		for i, n2 := range inv.Notes {
-			if n.SameAs(n2) {
-				// remove from array
-				inv.Notes = append(inv.Notes[:i], inv.Notes[i+1:]...)
+		// remove every matching note from the array; the same note may be
+		// present more than once.
+		notes := inv.Notes[:0]
+		for _, n2 := range inv.Notes {
+			if !n.SameAs(n2) {
+				notes = append(notes, n2)
 			}
 		}
+		inv.Notes = notes
 	}
 }
 
